@@ -88,10 +88,13 @@ Definition set_base_prog (s : St) (t : nat) (p : list op) : St :=
   | Some th => MkSt (sh s) (lset (thrs s) t (Thr p (cur th) (pc th) (kidx th) (myid th) (elected th) (batch th) (wok th)))
   | None => s
   end.
+(* did the commit that base thread t has just finished return Ok?  (acknowledgements carry the
+   thread and its commit number) *)
 Definition last_ok (s : St) (t : nat) : bool :=
-  match rev (filter (fun a => Nat.eqb (a_thr a) t) (acks (sh s))) with
-  | a :: _ => match a_res a with ROk => true | _ => false end
-  | [] => false
+  match lget (thrs s) t with
+  | Some th => existsb (fun a => Nat.eqb (a_thr a) t && (a_k a =? kidx th) &&
+                                 match a_res a with ROk => true | _ => false end) (acks (sh s))
+  | None => false
   end.
 
 Definition upd_l (s : St38) (t : nat) (lt : lthr) : St38 :=
